@@ -35,6 +35,18 @@ use vgen::{Design, GenOpts, generate};
 
 /// Annex H words of a 4-state value: bit i of aval/bval in word i/32.
 pub fn annex_h(v: &Bv) -> Vec<(u32, u32)> {
+    if MUTANT.load(std::sync::atomic::Ordering::Relaxed) == 1 {
+        // sensitivity switch (`--set selftest_mutant=annexh`): Z and X swapped in the oracle
+        let swapped = Bv::new(v.bits.iter().map(|d| if *d == X { Z } else if *d == Z { X } else { *d }).collect(), v.signed);
+        return annex_h_real(&swapped);
+    }
+    annex_h_real(v)
+}
+
+/// 0 = off, 1 = oracle encodes Z as a1b1 / X as a0b1, 2 = dump samples taken one step late
+static MUTANT: std::sync::atomic::AtomicU8 = std::sync::atomic::AtomicU8::new(0);
+
+fn annex_h_real(v: &Bv) -> Vec<(u32, u32)> {
     let n = v.width().div_ceil(32);
     let mut out = vec![(0u32, 0u32); n];
     for (i, d) in v.bits.iter().enumerate() {
@@ -428,7 +440,7 @@ fn run_with_dump(
             }
         };
         // the step dumped all variables at `sim.time`; sample the same state now
-        let t = sim.time;
+        let t = if MUTANT.load(std::sync::atomic::Ordering::Relaxed) == 2 { sim.time.saturating_sub(10) } else { sim.time };
         let row: Vec<Option<Bv>> = vars.iter().map(|s| sim.get_var(&s.get_path).and_then(|v| value_to_bv(&v))).collect();
         samples.push((t, row));
         if in_reset && let Some(id) = rst.as_ref().and_then(|r| r.var_id()) {
@@ -456,6 +468,10 @@ fn compare_dump(
             ));
             continue;
         };
+        if ch.len() == 1 && ch[0].0 == u64::MAX - 1 {
+            out.signals_skipped_ambiguous_name += 1;
+            continue;
+        }
         out.signals += 1;
         out.changes_in_dump += ch.len() as u64;
         let mut k = 0;
@@ -694,8 +710,15 @@ fn read_fst(path: &std::path::Path, vars: &[Sampled]) -> Result<Vec<Option<Vec<(
     for s in vars {
         let full = format!("{}.{}", s.scope.join("."), s.name).replace(".[", "[");
         let Some(cands) = by_name.get(&full) else {
+            // wellen re-derives a bit range for `name[i]` elements wider than one bit
+            // (`r0[0]` of width 2 shows up as `r0[1:0]`): such elements cannot be told
+            // apart by name; they are skipped and counted, not reported
+            let base = full.split('[').next().unwrap_or("").to_string();
+            if s.is_array_elem0 && by_name.keys().any(|k| k.split('[').next() == Some(base.as_str())) {
+                out.push(Some(vec![(u64::MAX - 1, Bv::zeros(1, false))]));
+                continue;
+            }
             if std::env::var("VERIF_OPS_DEBUG").is_ok() {
-                let base = full.rsplit('.').next().unwrap_or("").to_string();
                 eprintln!("fst: {full} not found; similar: {:?}", by_name.keys().filter(|k| k.contains(&base)).collect::<Vec<_>>());
             }
             out.push(None);
@@ -758,6 +781,14 @@ pub fn main(args: Args) {
             run.inconclusive(format!("bv4 self-test failed: {e}"));
             run.finish(&[]);
         }
+    }
+    match args.get("selftest_mutant") {
+        Some("annexh") => MUTANT.store(1, std::sync::atomic::Ordering::Relaxed),
+        Some("stale-sample") => MUTANT.store(2, std::sync::atomic::Ordering::Relaxed),
+        _ => {}
+    }
+    if args.get("selftest_mutant").is_some() {
+        run.inconclusive("selftest_mutant: the oracle is deliberately broken; this run can only show that the monitor fires".into());
     }
     let seed = args.seed;
     let scratch = PathBuf::from(format!("/verif/scratch/c36_{}_{}", std::process::id(), seed));
@@ -850,7 +881,7 @@ pub fn main(args: Args) {
                             5 => 129 + rng.usize(172),
                             _ => 1 + rng.usize(128),
                         };
-                        let four = (i / 6) % 2 == 1 || rng.bool();
+                        let four = i % 2 == 1;
                         cosim_case(&lib, &sc, i, w, four, &mut rng, values)
                     },
                     move |i, r| match r {
